@@ -488,35 +488,72 @@ def _releases_param(ctx, g: Unit, pname: str) -> bool:
     return memo[key]
 
 
-def closing_context_class(ctx, info) -> bool:
-    """A library context manager class whose ``__aexit__`` closes every element of the container its constructor was
-    given (``async with Closing(iterators): ...`` stands for the try/finally with the closing loop)."""
+def closing_context_class(ctx, info):
+    """A library context manager class whose ``__aexit__`` closes every element of a container its constructor was given
+    (``async with Closing(iterators): ...`` stands for the try/finally with the closing loop), or of the list of iterators
+    its constructor made of such a container (``self._its = [aiter(x) for x in iterables]``).  Returns the set of
+    constructor parameters that are released this way (empty: not such a class)."""
     memo = ctx.__dict__.setdefault("_closing_context_class", {})
     if info.fq in memo:
         return memo[info.fq]
-    memo[info.fq] = False
+    memo[info.fq] = set()
     init, aexit, aenter = info.methods.get("__init__"), info.methods.get("__aexit__"), info.methods.get("__aenter__")
-    if init is None or aexit is None or aenter is None or len(init.param_names()) != 2 or aexit.kind != "coroutine":
-        return False
-    p = init.param_names()[1]
-    fields = [t.attr for st in own_nodes(init.node) if isinstance(st, (ast.Assign, ast.AnnAssign))
-              for t in (st.targets if isinstance(st, ast.Assign) else [st.target])
-              if isinstance(t, ast.Attribute) and norm(t.value) == init.param_names()[0]
-              and isinstance(st.value, ast.Name) and st.value.id == p]
-    if len(fields) != 1:
-        return False
+    if init is None or aexit is None or aenter is None or aexit.kind != "coroutine":
+        return set()
+    me0 = init.param_names()[0]
+    params = init.param_names()[1:]
+
+    def from_param(val):
+        """the parameter a field value stands for: the parameter itself, or one iterator per element of it"""
+        if isinstance(val, ast.Name) and val.id in params:
+            return val.id
+        if isinstance(val, ast.ListComp) and len(val.generators) == 1 and not val.generators[0].ifs \
+                and not val.generators[0].is_async and isinstance(val.generators[0].iter, ast.Name) and val.generators[0].iter.id in params \
+                and isinstance(val.generators[0].target, ast.Name) and isinstance(val.elt, ast.Call) and len(val.elt.args) == 1 \
+                and isinstance(val.elt.args[0], ast.Name) and val.elt.args[0].id == val.generators[0].target.id \
+                and norm(val.elt.func).split(".")[-1] in ("aiter", "iter"):
+            return val.generators[0].iter.id
+        if isinstance(val, ast.Call) and norm(val.func) == "list" and len(val.args) == 1 and isinstance(val.args[0], ast.Call) \
+                and norm(val.args[0].func) == "map" and len(val.args[0].args) == 2 and norm(val.args[0].args[0]).split(".")[-1] in ("aiter", "iter") \
+                and isinstance(val.args[0].args[1], ast.Name) and val.args[0].args[1].id in params:
+            return val.args[0].args[1].id
+        return None
+
+    fields = {}
+    for st in init.node.body:  # (top level: bound unconditionally)
+        tgts = st.targets if isinstance(st, ast.Assign) else [st.target] if isinstance(st, ast.AnnAssign) and st.value is not None else []
+        for t in tgts:
+            if isinstance(t, ast.Attribute) and norm(t.value) == me0:
+                pn = from_param(st.value)
+                if pn is not None:
+                    fields[t.attr] = pn
+    if not fields:
+        return set()
     # entering does nothing that could fail or suspend
-    if any(n.kind in ("await", "yield", "pull", "enter", "call") and not n.tag for n in cfg_of(aenter).nodes):
-        return False
+    if any(n.kind in ("await", "yield", "pull", "enter") and not n.tag for n in cfg_of(aenter).nodes):
+        return set()
     v = ctx.inlined(aexit)
     cfg = cfg_of(v)
-    src = f"{init.short}:{p}"
+    me = aexit.param_names()[0]
+    closed = set()
+    loops = []
     for n in cfg.nodes:
-        if n.kind == "siter" and not n.tag and norm(n.info.get("iter")) == f"{aexit.param_names()[0]}.{fields[0]}":
-            if _loop_closes_all(ctx, v, cfg, n, src, elements_are_iterators=True):
-                others = [m for m in cfg.nodes if m.kind in ("await", "yield", "pull") and not m.tag and not m.in_region("loop", n.ast)]
-                memo[info.fq] = not others
-    return memo[info.fq]
+        if n.kind == "siter" and not n.tag:
+            f = norm(n.info.get("iter"))
+            if f.startswith(me + ".") and f[len(me) + 1:] in fields:
+                pn = fields[f[len(me) + 1:]]
+                if _loop_closes_all(ctx, v, cfg, n, f"{init.short}:{pn}", elements_are_iterators=True):
+                    closed.add(pn)
+                    loops.append(n)
+    # nothing else happens at exit but closing library generators the object made itself
+    for m in cfg.nodes:
+        if m.kind in ("await", "yield", "pull") and not m.tag and not any(m.in_region("loop", l.ast) for l in loops):
+            recv = _aclose_receiver(ctx, v, m.info.get("value"), m) if m.kind == "await" and _names_aclose(ctx, v, m.info.get("value"), m) else None
+            vals = ctx.vals.expr(v, recv, m) if recv is not None else frozenset()
+            if not vals or not all(a[0] in ("libgen", "iter") and (a[0] == "libgen" or (isinstance(a[1], tuple) and a[1][:1] == ("libgen",))) for a in vals):
+                return set()
+    memo[info.fq] = closed
+    return closed
 
 
 def close_nodes(ctx, unit: Unit, cfg: CFG, src: str, findings: List[Tuple[Node, str]]) -> Set[Node]:
@@ -536,18 +573,29 @@ def close_nodes(ctx, unit: Unit, cfg: CFG, src: str, findings: List[Tuple[Node, 
                     g, pn = next((g, pn) for g, pn in handed if not _releases_param(ctx, g, pn))
                     findings.append((n, f"the scope closes the library generator `{g.short}`, which does not close what it is handed "
                                         f"through `{pn}`: the iterators of the argument stay open"))
-            elif isinstance(cm, ast.Call) and len(cm.args) == 1 and not cm.keywords and v \
-                    and all(a[0] == "libinst" and ctx.pkg.lib_class(a[1]) is not None
-                            and closing_context_class(ctx, ctx.pkg.lib_class(a[1])) for a in v):
-                av = ctx.vals.element_of(ctx.vals.expr(unit, cm.args[0], n))
-                if any(a[0] in ("iter", "user") and mentions(frozenset([a]), src) for a in av):
-                    proxy = Node(-1, "siter", None, n.regions, n.tag, n.stmt)
-                    proxy.info["iter"] = cm.args[0]
-                    why = _container_complete(ctx, unit, cfg, proxy, src)
-                    if why is None:
-                        out.add(n)
-                    else:
-                        findings.append((n, why))
+            elif v and all(a[0] == "libinst" and ctx.pkg.lib_class(a[1]) is not None for a in v) and len({a[1] for a in v}) == 1:
+                info = ctx.pkg.lib_class(next(iter(v))[1])
+                call, at = cm, n
+                if isinstance(cm, ast.Name):
+                    # ``obj = Closing(iterables, ...)`` ... ``async with obj:`` (the arguments mean what they meant there)
+                    from asl.flow import reaching
+                    defs = [d for d in reaching(cfg).defs_at(n, cm.id) if d.kind == "store"]
+                    call, at = (defs[0].info.get("value"), defs[0]) if len(defs) == 1 else (None, n)
+                released = closing_context_class(ctx, info) if isinstance(call, ast.Call) and not call.keywords else set()
+                pnames = info.methods["__init__"].param_names()[1:] if released else []
+                for i_, arg in enumerate(call.args if released else []):
+                    if isinstance(arg, ast.Starred) or i_ >= len(pnames) or pnames[i_] not in released:
+                        continue
+                    av = ctx.vals.element_of(ctx.vals.expr(unit, arg, at))
+                    if any(a[0] in ("iter", "user", "item") and mentions(frozenset([a]), src) for a in av) \
+                            or mentions(ctx.vals.expr(unit, arg, at), src):
+                        proxy = Node(-1, "siter", None, at.regions, at.tag, at.stmt)
+                        proxy.info["iter"] = arg
+                        why = _container_complete(ctx, unit, cfg, proxy, src)
+                        if why is None:
+                            out.add(n)
+                        else:
+                            findings.append((n, why))
         elif n.kind == "siter":
             if _loop_closes_all(ctx, unit, cfg, n, src):
                 why = _container_complete(ctx, unit, cfg, n, src)
